@@ -491,6 +491,12 @@ def _strat_apply_unitary_from_decompose(val: Any, args: ApplyUnitaryArgs) -> np.
     operations, qubits, _ = _try_decompose_into_operations_and_qubits(val)
     if operations is None:
         return NotImplemented
+    # `apply_unitaries` works in place and cannot roll back: make sure every part is unitary before
+    # touching the caller's tensor (a decomposition may end in, e.g., a measurement).
+    from cirq.protocols.has_unitary_protocol import has_unitary
+
+    if not all(has_unitary(op) for op in operations):
+        return None
     all_qubits = frozenset([q for op in operations for q in op.qubits])
     ancilla = tuple(sorted(all_qubits.difference(qubits)))
     if not len(ancilla):
